@@ -127,4 +127,4 @@ def run(r):
     r.coverage["distinct_nontrivial"] = len(set(c["src"] for c in cases if len(c["spans"]) >= 3))
     r.coverage["rule"] = ("inputs: random token soup over uiua's glyphs, ASCII primitive names and a fixed list of hard pieces (escapes, combining sequences, CR/CRLF, "
                           "multi-line strings, output comments, unterminated constructs, subscripts, `?` chains), mutated lines of /repo/tests and /repo/examples, "
-                          "preceded by a fixed regression corpus of 15 huge inputs around the 16-bit limits (9 that the guard must reject with the ordinary too-long error, 5 just inside the guard that must lex cleanly, 1 for the formatter's output side); non-trivial = at least 3 reported spans")
+                          "preceded by a fixed regression corpus of 16 huge inputs around the 16-bit limits (9 that the guard must reject with the ordinary too-long error, 5 just inside the guard that must lex cleanly, 2 for the formatter output side: a 65535-character formatted line must be exact, a 65536-character one may only be clamped, never wrapped); non-trivial = at least 3 reported spans")
